@@ -47,15 +47,21 @@ theorem evStep1_ghost {k : Nat} {c : Hp.St} {cuts : Cuts} {e : Ev} {pc : Pc} {c'
     obtain ⟨⟨_, h⟩, hc⟩ := h; cases h
     exact ⟨rfl, .inl ⟨rfl, hc, rfl⟩⟩
   · next o ht =>
-    rw [plainR_ok, guard_ok] at h
-    obtain ⟨⟨_, h⟩, hc⟩ := h; cases h
-    exact ⟨rfl, .inl ⟨by simp [cutOfPc, ht, cutOf], hc, rfl⟩⟩
+    rw [plainR_ok] at h
+    obtain ⟨h, hc⟩ := h
+    rcases fetchAdd_cases h with ⟨⟨ic, f, hr⟩, hfl, hfk⟩ | ⟨hr, hfok, hfl, hfo, hfr, hfk⟩
+    · cases hr; exact ⟨rfl, .inl ⟨rfl, hc, rfl⟩⟩
+    · cases hr
+      exact ⟨rfl, .inl ⟨by simp [cutOfPc, ht, cutOf], hc, rfl⟩⟩
   · next o b p l ht =>
     simp only [obsEntry] at h
     split at h
-    · rw [plainR_ok, guard_ok] at h
-      obtain ⟨⟨_, h⟩, hc⟩ := h; cases h
-      exact ⟨rfl, .inl ⟨by simp [cutOfPc, ht, cutOf], hc, rfl⟩⟩
+    · rw [plainR_ok] at h
+      obtain ⟨h, hc⟩ := h
+      rcases fetchAdd_cases h with ⟨⟨ic, f, hr⟩, hfl, hfk⟩ | ⟨hr, hfok, hfl, hfo, hfr, hfk⟩
+      · cases hr; exact ⟨rfl, .inl ⟨rfl, hc, rfl⟩⟩
+      · cases hr
+        exact ⟨rfl, .inl ⟨by simp [cutOfPc, ht, cutOf], hc, rfl⟩⟩
     · rw [plainR_ok] at h
       obtain ⟨h, hc⟩ := h
       rcases casLoop_c0 h with ⟨h1, h2, h3⟩ | h1
@@ -64,9 +70,12 @@ theorem evStep1_ghost {k : Nat} {c : Hp.St} {cuts : Cuts} {e : Ev} {pc : Pc} {c'
       · cases h1
         exact ⟨rfl, .inl ⟨by simp [cutOfPc, ht, cutOf], hc, rfl⟩⟩
   · next o b ht =>
-    rw [plainR_ok, guard_ok] at h
-    obtain ⟨⟨_, h⟩, hc⟩ := h; cases h
-    exact ⟨rfl, .inl ⟨by simp [cutOfPc, ht, cutOf], hc, rfl⟩⟩
+    rw [plainR_ok] at h
+    obtain ⟨h, hc⟩ := h
+    rcases fetchAdd_cases h with ⟨⟨ic, f, hr⟩, hfl, hfk⟩ | ⟨hr, hfok, hfl, hfo, hfr, hfk⟩
+    · cases hr; exact ⟨rfl, .inl ⟨rfl, hc, rfl⟩⟩
+    · cases hr
+      exact ⟨rfl, .inl ⟨by simp [cutOfPc, ht, cutOf], hc, rfl⟩⟩
   · next ht =>
     rw [plainR_ok, guard_ok] at h
     obtain ⟨⟨_, h⟩, hc⟩ := h; cases h
@@ -84,9 +93,12 @@ theorem evStep1_ghost {k : Nat} {c : Hp.St} {cuts : Cuts} {e : Ev} {pc : Pc} {c'
         · rw [plainR_ok, guard_ok] at h
           obtain ⟨⟨_, h⟩, hc⟩ := h; cases h
           exact ⟨rfl, .inl ⟨by simp [cutOfPc, ht, cutOf], hc, rfl⟩⟩
-    · rw [plainR_ok, guard_ok] at h
-      obtain ⟨⟨_, h⟩, hc⟩ := h; cases h
-      exact ⟨rfl, .inr (.inl ⟨by simp [cutOfPc, ht, cutOf], by simp [cutOfPc, cutOf], hc, rfl⟩)⟩
+    · rw [plainR_ok] at h
+      obtain ⟨h, hc⟩ := h
+      rcases fetchAdd_cases h with ⟨⟨ic, f, hr⟩, hfl, hfk⟩ | ⟨hr, hfok, hfl, hfo, hfr, hfk⟩
+      · cases hr; exact ⟨rfl, .inl ⟨rfl, hc, rfl⟩⟩
+      · cases hr
+        exact ⟨rfl, .inr (.inl ⟨by simp [cutOfPc, ht, cutOf], by simp [cutOfPc, cutOf], hc, rfl⟩)⟩
   · next cold ov S ht =>
     rw [plainR_ok, guard_ok] at h
     obtain ⟨⟨_, h⟩, hc⟩ := h
@@ -107,9 +119,12 @@ theorem evStep1_ghost {k : Nat} {c : Hp.St} {cuts : Cuts} {e : Ev} {pc : Pc} {c'
       exact ⟨rfl, .inl ⟨by simp [cutOfPc, ht, cutOf], hc, rfl⟩⟩
   · next cold ov cell todo taken S ht =>
     split at h
-    · rw [plainR_ok, guard_ok] at h
-      obtain ⟨⟨_, h⟩, hc⟩ := h; cases h
-      exact ⟨rfl, .inl ⟨by simp [cutOfPc, ht, cutOf], hc, rfl⟩⟩
+    · rw [plainR_ok] at h
+      obtain ⟨h, hc⟩ := h
+      rcases fetchAdd_cases h with ⟨⟨ic, f, hr⟩, hfl, hfk⟩ | ⟨hr, hfok, hfl, hfo, hfr, hfk⟩
+      · cases hr; exact ⟨rfl, .inl ⟨rfl, hc, rfl⟩⟩
+      · cases hr
+        exact ⟨rfl, .inl ⟨by simp [cutOfPc, ht, cutOf], hc, rfl⟩⟩
     · rw [plainR_ok] at h
       obtain ⟨h, hc⟩ := h
       rcases casLoop_c0 h with ⟨h1, h2, h3⟩ | h1
@@ -118,9 +133,12 @@ theorem evStep1_ghost {k : Nat} {c : Hp.St} {cuts : Cuts} {e : Ev} {pc : Pc} {c'
       · cases h1
         exact ⟨rfl, .inl ⟨by simp [cutOfPc, ht, cutOf], hc, rfl⟩⟩
   · next cold ov todo taken S ht =>
-    rw [plainR_ok, guard_ok] at h
-    obtain ⟨⟨_, h⟩, hc⟩ := h; cases h
-    exact ⟨rfl, .inl ⟨by simp [cutOfPc, ht, cutOf], hc, rfl⟩⟩
+    rw [plainR_ok] at h
+    obtain ⟨h, hc⟩ := h
+    rcases fetchAdd_cases h with ⟨⟨ic, f, hr⟩, hfl, hfk⟩ | ⟨hr, hfok, hfl, hfo, hfr, hfk⟩
+    · cases hr; exact ⟨rfl, .inl ⟨rfl, hc, rfl⟩⟩
+    · cases hr
+      exact ⟨rfl, .inl ⟨by simp [cutOfPc, ht, cutOf], hc, rfl⟩⟩
   · next cold ov todo taken S ht =>
     split at h
     · cases h
